@@ -749,6 +749,9 @@ func runFrame(fr *frame) {
 				}
 			}
 			fr.cur = instr
+			if fr.i.race != nil {
+				fr.i.race.cur = instr
+			}
 			if visitInstr(fr, instr) == kReturn {
 				return
 			}
